@@ -2,6 +2,7 @@ package main
 
 import (
 	"fmt"
+	"hash/crc32"
 	"strings"
 )
 
@@ -279,6 +280,11 @@ type samSpec struct {
 func genSam(r *Rand, sp samSpec) *SamCase {
 	sc := &SamCase{RefName: "ref", RefSeq: genRefSeq(r, sp.L), PG: r.P(0.3)}
 	L := sp.L
+	// substituted and conflicting bases: A, C, G, T (and N); in one case out of seven any IUPAC letter SAM's SEQ may hold
+	subst, conflict := "ACGTN", "ACGT"
+	if r.P(0.15) {
+		subst, conflict = "ACGTNRYKMSWBDHVBDHV", "ACGTBDHVRY"
+	}
 	for q := 0; q < sp.Queries; q++ {
 		name := fmt.Sprintf("q%d", q+1)
 		if r.P(0.1) {
@@ -292,7 +298,7 @@ func genSam(r *Rand, sp samSpec) *SamCase {
 			state[p] = 'B'
 			qb[p] = sc.RefSeq[p-1]
 			if r.P(0.1) {
-				qb[p] = "ACGTN"[r.Intn(5)]
+				qb[p] = subst[r.Intn(len(subst))]
 			}
 		}
 		for p := 1; p <= L; p++ {
@@ -438,7 +444,7 @@ func genSam(r *Rand, sp samSpec) *SamCase {
 				case 'B':
 					base := qb[p]
 					if sp.Conflict > 0 && k > 0 && r.P(sp.Conflict) {
-						base = "ACGT"[r.Intn(4)]
+						base = conflict[r.Intn(len(conflict))]
 					}
 					op := byte('M')
 					if useEqX {
@@ -660,4 +666,67 @@ func wideLayout(r *Rand) Layout {
 	l := genLayout(r)
 	l.Width = r.PickInt(0, 0, 60, 70, 80)
 	return l
+}
+
+// checksumTwins returns two different ACGT sequences of width w (w >= 40) that differ in transitions only and have
+// the same 32-bit CRC (IEEE or Castagnoli, chosen by the case) over their ASCII bytes or over gofasta's one-byte
+// encoding of them. CRCs are affine over GF(2), so among any 33 single-site changes some subset leaves the
+// checksum as it was; a random generator would need 2^32 pairs to meet one, real data sets (d^2/2 pairs) do.
+// It serves as the "two different records that any 32-bit fingerprint of the usual kind takes for one" family.
+func checksumTwins(r *Rand, w int) (string, string) {
+	tab := crc32.MakeTable([]uint32{crc32.IEEE, crc32.Castagnoli}[r.Intn(2)])
+	encoded := r.Bool()
+	code := func(b byte) byte {
+		if !encoded {
+			return b
+		}
+		switch b {
+		case 'A':
+			return 136
+		case 'G':
+			return 72
+		case 'C':
+			return 40
+		}
+		return 24
+	}
+	flip := map[byte]byte{'A': 'G', 'G': 'A', 'C': 'T', 'T': 'C'}
+	q1 := []byte(genRefSeq(r, w))
+	zero := make([]byte, w)
+	c0 := crc32.Checksum(zero, tab)
+	// Gaussian elimination over GF(2): basis vectors with the set of sites that produced each
+	var basis [32]uint32
+	var sites [32]uint64
+	order := r.Perm(w)
+	for _, i := range order {
+		if i >= 64 {
+			continue
+		}
+		zero[i] = code(q1[i]) ^ code(flip[q1[i]])
+		v, m := crc32.Checksum(zero, tab)^c0, uint64(1)<<uint(i)
+		zero[i] = 0
+		for b := 31; b >= 0 && v != 0; b-- {
+			if v>>uint(b)&1 == 0 {
+				continue
+			}
+			if basis[b] == 0 {
+				basis[b], sites[b] = v, m
+				v = 0
+				m = 0
+				break
+			}
+			v ^= basis[b]
+			m ^= sites[b]
+		}
+		if m != 0 { // v reduced to zero: the sites in m together leave the checksum unchanged
+			q2 := append([]byte(nil), q1...)
+			for j := 0; j < w && j < 64; j++ {
+				if m>>uint(j)&1 == 1 {
+					q2[j] = flip[q1[j]]
+				}
+			}
+			return string(q1), string(q2)
+		}
+	}
+	return string(q1), string(q1)
 }
